@@ -168,31 +168,67 @@ theorem adj_plus (a b : Obj K) (x : Nat → K) (i : Nat) :
     Obj.adj Lf La (Obj.plus a b) x i = Obj.adj Lf La a x i + Obj.adj Lf La b x i := by
   unfold Obj.plus; split <;> simp [Obj.adj, adj_mkSum]
 
-theorem fwd_rmul (c : Scal K) (a : Obj K) (x : Nat → K) (i : Nat) :
-    Obj.fwd Lf La (Obj.rmul c a) x i = c.at i * Obj.fwd Lf La a x i := by
+/-- `__rmul__` for an operator that is not `ZeroOp` -/
+def Obj.rmul0 (c : Scal K) (a : Obj K) : Obj K :=
+  match c with
+  | .py v => if v = 0 then .zeroOp else if v = 1 then a else .prodRight a c
+  | _ => .prodRight a c
+/-- `__mul__` for an operator that is not `ZeroOp` -/
+def Obj.mul0 (a : Obj K) (c : Scal K) : Obj K :=
+  match c with
+  | .py v => if v = 0 then .zeroOp else if v = 1 then a else .prodLeft a c
+  | _ => .prodLeft a c
+theorem rmul_zeroOp (c : Scal K) : Obj.rmul c (.zeroOp : Obj K) = .zeroOp := by
+  simp [Obj.rmul]
+theorem mul_zeroOp (c : Scal K) : Obj.mul (.zeroOp : Obj K) c = .zeroOp := by
+  simp [Obj.mul]
+theorem rmul_of_ne (c : Scal K) (a : Obj K) (h : a ≠ .zeroOp) : Obj.rmul c a = Obj.rmul0 c a := by
+  unfold Obj.rmul Obj.rmul0
+  split
+  · exact absurd rfl h
+  · rfl
+theorem mul_of_ne (a : Obj K) (c : Scal K) (h : a ≠ .zeroOp) : Obj.mul a c = Obj.mul0 a c := by
+  unfold Obj.mul Obj.mul0
+  split
+  · exact absurd rfl h
+  · rfl
+
+theorem fwd_rmul0 (c : Scal K) (a : Obj K) (x : Nat → K) (i : Nat) :
+    Obj.fwd Lf La (Obj.rmul0 c a) x i = c.at i * Obj.fwd Lf La a x i := by
   cases c with
   | py v =>
-    unfold Obj.rmul
+    unfold Obj.rmul0
     simp only
     split_ifs with h0 h1
     · simp [Obj.fwd, h0]
     · simp [h1]
     · simp [Obj.fwd]
-  | t1 v => simp [Obj.rmul, Obj.fwd]
-  | tn d => simp [Obj.rmul, Obj.fwd]
+  | t1 v => simp [Obj.rmul0, Obj.fwd]
+  | tn d => simp [Obj.rmul0, Obj.fwd]
 
-theorem adj_mul_pt (a : Obj K) (c : Scal K) (y : Nat → K) (i : Nat) :
-    Obj.adj Lf La (Obj.mul a c) y i = star (c.at i) * Obj.adj Lf La a y i := by
+theorem adj_mul_pt0 (a : Obj K) (c : Scal K) (y : Nat → K) (i : Nat) :
+    Obj.adj Lf La (Obj.mul0 a c) y i = star (c.at i) * Obj.adj Lf La a y i := by
   cases c with
   | py v =>
-    unfold Obj.mul
+    unfold Obj.mul0
     simp only
     split_ifs with h0 h1
     · simp [Obj.adj, h0]
     · simp [h1]
     · simp [Obj.adj, mul_comm]
-  | t1 v => simp [Obj.mul, Obj.adj, mul_comm]
-  | tn d => simp [Obj.mul, Obj.adj, mul_comm]
+  | t1 v => simp [Obj.mul0, Obj.adj, mul_comm]
+  | tn d => simp [Obj.mul0, Obj.adj, mul_comm]
+
+theorem fwd_rmul (c : Scal K) (a : Obj K) (x : Nat → K) (i : Nat) :
+    Obj.fwd Lf La (Obj.rmul c a) x i = c.at i * Obj.fwd Lf La a x i := by
+  by_cases h : a = .zeroOp
+  · subst h; simp [rmul_zeroOp, Obj.fwd]
+  · rw [rmul_of_ne c a h, fwd_rmul0]
+theorem adj_mul_pt (a : Obj K) (c : Scal K) (y : Nat → K) (i : Nat) :
+    Obj.adj Lf La (Obj.mul a c) y i = star (c.at i) * Obj.adj Lf La a y i := by
+  by_cases h : a = .zeroOp
+  · subst h; simp [mul_zeroOp, Obj.adj]
+  · rw [mul_of_ne a c h, adj_mul_pt0]
 
 theorem fwd_rmul_fn (c : Scal K) (a : Obj K) (x : Nat → K) :
     Obj.fwd Lf La (Obj.rmul c a) x = fun i => c.at i * Obj.fwd Lf La a x i :=
@@ -204,33 +240,44 @@ theorem adj_mul_fn (a : Obj K) (c : Scal K) (y : Nat → K) :
 variable (hf : ∀ i, IsLin' (Lf i)) (ha : ∀ i, IsLin' (La i))
 include hf ha
 
-theorem adj_rmul (c : Scal K) (a : Obj K) (y : Nat → K) :
-    Obj.adj Lf La (Obj.rmul c a) y = Obj.adj Lf La a (fun i => star (c.at i) * y i) := by
+theorem adj_rmul0 (c : Scal K) (a : Obj K) (y : Nat → K) :
+    Obj.adj Lf La (Obj.rmul0 c a) y = Obj.adj Lf La a (fun i => star (c.at i) * y i) := by
   have comm : ∀ s : Scal K, (fun i => y i * conj (s.at i)) = fun i => star (s.at i) * y i := by
     intro s; funext i; simp [mul_comm]
   cases c with
   | py v =>
-    unfold Obj.rmul
+    unfold Obj.rmul0
     simp only
     split_ifs with h0 h1
     · simp [Obj.adj, h0, lin_zero (Obj.adj_lin Lf La hf ha a)]
     · simp [h1]
     · simp only [Obj.adj, comm]
-  | t1 v => simp only [Obj.rmul, Obj.adj, comm]
-  | tn d => simp only [Obj.rmul, Obj.adj, comm]
+  | t1 v => simp only [Obj.rmul0, Obj.adj, comm]
+  | tn d => simp only [Obj.rmul0, Obj.adj, comm]
 
-theorem fwd_mul (a : Obj K) (c : Scal K) (x : Nat → K) :
-    Obj.fwd Lf La (Obj.mul a c) x = Obj.fwd Lf La a (fun i => c.at i * x i) := by
+theorem fwd_mul0 (a : Obj K) (c : Scal K) (x : Nat → K) :
+    Obj.fwd Lf La (Obj.mul0 a c) x = Obj.fwd Lf La a (fun i => c.at i * x i) := by
   cases c with
   | py v =>
-    unfold Obj.mul
+    unfold Obj.mul0
     simp only
     split_ifs with h0 h1
     · simp [Obj.fwd, h0, lin_zero (Obj.fwd_lin Lf La hf ha a)]
     · simp [h1]
     · simp only [Obj.fwd]
-  | t1 v => simp only [Obj.mul, Obj.fwd]
-  | tn d => simp only [Obj.mul, Obj.fwd]
+  | t1 v => simp only [Obj.mul0, Obj.fwd]
+  | tn d => simp only [Obj.mul0, Obj.fwd]
+
+theorem adj_rmul (c : Scal K) (a : Obj K) (y : Nat → K) :
+    Obj.adj Lf La (Obj.rmul c a) y = Obj.adj Lf La a (fun i => star (c.at i) * y i) := by
+  by_cases h : a = .zeroOp
+  · subst h; simp [rmul_zeroOp, Obj.adj]
+  · rw [rmul_of_ne c a h, adj_rmul0 Lf La hf ha]
+theorem fwd_mul (a : Obj K) (c : Scal K) (x : Nat → K) :
+    Obj.fwd Lf La (Obj.mul a c) x = Obj.fwd Lf La a (fun i => c.at i * x i) := by
+  by_cases h : a = .zeroOp
+  · subst h; simp [mul_zeroOp, Obj.fwd]
+  · rw [mul_of_ne a c h, fwd_mul0 Lf La hf ha]
 
 theorem fwd_plusT (a : Obj K) (d : Scal K) (x : Nat → K) (i : Nat) :
     Obj.fwd Lf La (Obj.plusT a d) x i = Obj.fwd Lf La a x i + d.at i * x i := by
